@@ -640,8 +640,16 @@ class Machine(object):
                     refs.append(obj)
                     if name == "_ecb_start":
                         self._mark_init(obj)
-                        if "hfore" in obj.fields:
-                            obj.fields["hfore"].v = 9     # sentinel: lets a monitor tell the default from a literal
+                        # sentinel for the hi-res foreground colour: lets a monitor tell the default from a literal.
+                        # Records are raw memory to BASIC09: the callee's TYPE line decides which byte is hfore, so the
+                        # sentinel goes to the caller's field at the POSITION the library declares for hfore.
+                        callee_fields = [f[0] for f in (self.lib.get(name, {}).get("types", {}).get(obj.tname) or [])]
+                        caller_fields = [f[0] for f in (frame.types.get(obj.tname) or [])]
+                        target = "hfore"
+                        if "hfore" in callee_fields and len(caller_fields) == len(callee_fields):
+                            target = caller_fields[callee_fields.index("hfore")]
+                        if target in obj.fields and isinstance(obj.fields[target], Cell):
+                            obj.fields[target].v = 9
                 elif isinstance(obj, Arr):
                     vals.append("<array %s>" % obj.name)
                     refs.append(obj)
